@@ -9,7 +9,7 @@ use serde_json::json;
 pub fn prop() -> Prop {
   Prop {
     id: "C11",
-    rule: "case = (shared observable = defer(counting factory -> source).tap(counter).share() | .share_threads() | .publish(); source: cold synchronous (`create` script), hot Subject, or interval on the virtual clock; history of <= 10 operations by <= 3 subscribers: subscribe, unsubscribe one, source event (hot), clock advance (interval), connect (publish)). \
+    rule: "case = (shared observable = defer(counting factory -> source).tap(counter).share() | .share_threads() | .publish(); source: cold synchronous (`create` script), hot Subject, or interval on the virtual clock; history of <= 10 operations by <= 3 subscribers: subscribe, unsubscribe one, source event (hot), clock advance (interval), connect (publish); one case in eight is preceded by a crowd: 33..72 subscribers join, none / some / all but one / all of them leave again, the source may act). \
            Oracle: publish - the source is subscribed 0 times before connect() and exactly once after; share - 0 times before the first subscribe, exactly once from then on; every subscriber receives exactly the notifications sent while it was subscribed, once each (cold source: the first subscriber gets the whole sequence); after the last subscriber has unsubscribed the upstream side effect (tap) never runs again and, for interval, no scheduled task is alive one period later. Non-trivial: >= 2 subscribers with a leave between two emissions, or source activity after the last leave. Distinct by hash(case). Part `short` enumerates all histories of length <= 6 over a compact alphabet (thorough tier).",
     assumptions: &["what a subscriber receives when it joins after the source terminated, or after everybody left, is not constrained (only that the source is not subscribed again)"],
     parts: vec![
@@ -331,7 +331,34 @@ fn finish(case: Case, ctx: &Ctx) -> Outcome {
 }
 
 fn run_random(c: &mut dyn Choices, ctx: &Ctx) -> Outcome {
-  finish(gen_case(c, false), ctx)
+  let mut case = gen_case(c, false);
+  // (appended picks, recorded tapes keep their meaning) one case in eight starts with a crowd: 33..72 subscribers
+  // join; then nobody / the first / one in the middle and the first / everybody but one / everybody leaves again;
+  // then the source may act; the generated history follows
+  if c.pick(8) == 7 {
+    let m = 33 + c.pick(40);
+    let mut pre: Vec<ShOp> = (0..m).map(|_| ShOp::Subscribe).collect();
+    match c.pick(5) {
+      0 => {}
+      1 => pre.push(ShOp::Unsub(0)),
+      2 => {
+        pre.push(ShOp::Unsub(m / 2));
+        pre.push(ShOp::Unsub(0));
+      }
+      3 => pre.extend((0..m - 1).map(|_| ShOp::Unsub(0))),
+      _ => pre.extend((0..m).map(|_| ShOp::Unsub(0))),
+    }
+    if c.flag() {
+      match &case.src {
+        ShSrc::Hot => pre.push(ShOp::Emit(Ev::N(V::I(900)))),
+        ShSrc::Interval(p) => pre.push(ShOp::Advance(*p)),
+        ShSrc::Cold(_) => {}
+      }
+    }
+    pre.extend(case.ops);
+    case.ops = pre;
+  }
+  finish(case, ctx)
 }
 /// compact generator for exhaustive enumeration
 fn run_short(c: &mut dyn Choices, ctx: &Ctx) -> Outcome {
